@@ -268,8 +268,12 @@ class Transformer(NamedTuple):
             line=self._get_insert_line(func),
             indent=func.col,
             contract=Category.HAS,
-            args=[f'{self.quote}{arg}{self.quote}' for arg in contract_args],
+            args=[self._quoted(arg) for arg in contract_args],
         )
+
+    def _quoted(self, text: str) -> str:
+        text = text.replace('\\', '\\\\').replace(self.quote, '\\' + self.quote)
+        return f'{self.quote}{text}{self.quote}'
 
     def _mutations_property(self, func: Func) -> Iterator[Mutation]:
         assert isinstance(func.node, astroid.FunctionDef)
